@@ -337,6 +337,32 @@ class Folder:
                         "sorted": sorted, "hex": hex}[fn.id](*args)
             except Exception as e:  # noqa
                 raise Unfoldable(str(e))
+        if kind == "ext" and obj == "re.sub" and len(expr.args) == 3 and not expr.keywords:
+            import re as _re
+            a = [self.fold(x, scope) for x in expr.args]
+            if all(isinstance(x, str) for x in a):
+                try:
+                    return _re.sub(a[0], a[1], a[2])
+                except _re.error as e:
+                    raise Unfoldable(str(e))
+        if isinstance(fn, ast.Attribute) and fn.attr in ("replace", "upper", "lower", "strip", "lstrip", "rstrip", "startswith", "endswith", "removeprefix",
+                                                         "removesuffix", "split", "partition", "rpartition", "find", "index", "count", "zfill", "isupper", "hex") and not expr.keywords:
+            try:
+                base = self.fold(fn.value, scope)
+            except Unfoldable:
+                base = None
+            if isinstance(base, (str, bytes)):
+                args = [self.fold(x, scope) for x in expr.args]
+                try:
+                    return getattr(base, fn.attr)(*args)
+                except Exception as e:  # noqa
+                    raise Unfoldable(str(e))
+        if isinstance(fn, ast.Name) and fn.id in ("float", "str", "repr", "bytes", "len") and len(expr.args) == 1 and not expr.keywords and fn.id != "len":
+            v = self.fold(expr.args[0], scope)
+            try:
+                return {"float": float, "str": str, "repr": repr, "bytes": bytes}[fn.id](v)
+            except Exception as e:  # noqa
+                raise Unfoldable(str(e))
         if isinstance(fn, ast.Attribute) and fn.attr in ("items", "keys", "values") and not expr.args:
             base = self.fold(fn.value, scope)
             if isinstance(base, dict):
